@@ -363,6 +363,89 @@ def check_free_region(recursive, n_users):
     return None
 
 
+_FOLD = {}
+
+
+def folding_ops():
+    """Harness-local ops with a folder: `c11.fold0` has NO results and folds away (to the empty sequence) when it carries `fold`; `c11.fold1` has one result and
+    folds to its operand.  Neither is pure (the trivial-dead branch does not touch them)."""
+    if not _FOLD:
+        from xdsl.interfaces import HasFolderInterface
+        from xdsl.irdl import IRDLOperation, irdl_op_definition, var_operand_def, var_result_def
+
+        @irdl_op_definition
+        class Fold0(IRDLOperation, HasFolderInterface):
+            name = "test.c11_fold0"
+            ins = var_operand_def()
+
+            def fold(self):
+                return () if "fold" in self.attributes else None
+
+        @irdl_op_definition
+        class Fold1(IRDLOperation, HasFolderInterface):
+            name = "test.c11_fold1"
+            ins = var_operand_def()
+            outs = var_result_def()
+
+            def fold(self):
+                return (self.operands[0],) if "fold" in self.attributes and len(self.operands) == 1 and len(self.results) == 1 else None
+
+        _FOLD.update(f0=Fold0, f1=Fold1)
+    return _FOLD
+
+
+@rechecked
+def check_folding(layout, dce):
+    """The applier with folding_enabled: an op that folds (also to ZERO results) is replaced through the rewriter and NO pattern is then invoked on it."""
+    from xdsl.context import Context
+    from xdsl.dialects import test
+    from xdsl.dialects.builtin import Builtin, ModuleOp, UnitAttr, i32
+    from xdsl.pattern_rewriter import GreedyRewritePatternApplier, PatternRewriter, PatternRewriteWalker, RewritePattern
+
+    F = folding_ops()
+    src = test.TestOp.create(result_types=[i32])
+    ops = [src]
+    for ch in layout:
+        attrs = {"fold": UnitAttr()} if ch.isupper() else {}
+        if ch.lower() == "z":
+            ops.append(F["f0"].create(operands=[src.results[0]], attributes=attrs))
+        else:
+            o = F["f1"].create(operands=[src.results[0]], result_types=[i32], attributes=attrs)
+            ops += [o, test.TestOp.create(operands=[o.results[0]])]
+    module = ModuleOp(ops)
+    bad = []
+
+    class Log(RewritePattern):
+        def match_and_rewrite(self, op, rewriter: PatternRewriter):
+            if op.parent is None and op is not module:
+                bad.append(op.name)
+
+    ctx = Context()
+    ctx.load_dialect(Builtin)
+    try:
+        PatternRewriteWalker(GreedyRewritePatternApplier([Log()], ctx, folding_enabled=True, dce_enabled=dce)).rewrite_module(module)
+    except Exception as e:  # noqa: BLE001
+        return {"key": "C11/alive", "what": f"driver raised {type(e).__name__}: {str(e)[:160]}", "inputs": {"layout": layout, "dce_enabled": dce}}
+    if bad:
+        return {"key": "C11/alive", "what": f"a pattern was invoked on {bad[0]} after the applier had folded it away (it is detached)", "inputs": {"layout": layout, "dce_enabled": dce}}
+    left = [o.name for o in module.body.block.ops if "fold" in o.attributes]
+    if left:
+        return {"key": "C11/fixpoint", "what": f"a foldable op {left[0]} is left after the walk with folding enabled", "inputs": {"layout": layout, "dce_enabled": dce}}
+    return None
+
+
+def explore_folding(tier, seed):
+    fails, cases = [], 0
+    for layout in ("Z", "z", "O", "o", "ZO", "OZ", "zZo", "ZZ"):
+        for dce in (False, True):
+            cases += 1
+            f = check_folding(layout, dce)
+            if f and not fails:
+                fails.append(f)
+    return {"cases": cases, "failures": fails, "exhaustive": True, "nontrivial": cases,
+            "bound": "GreedyRewritePatternApplier with folding_enabled on modules with zero-result and one-result foldable ops (folding or not), dce on/off: no pattern runs on a folded-away op"}
+
+
 def explore_free_region(tier, seed):
     fails, cases = [], 0
     for rec in (False, True):
@@ -393,4 +476,4 @@ def explore(tier, seed, shard=0, shards=1):
 
 
 SHARDS = 8
-NATIVE = [(f"walker-postconditions-{i}", (lambda i: lambda tier, seed: explore(tier, seed, i, SHARDS))(i)) for i in range(SHARDS)] + [("free-standing-region", explore_free_region)]
+NATIVE = [(f"walker-postconditions-{i}", (lambda i: lambda tier, seed: explore(tier, seed, i, SHARDS))(i)) for i in range(SHARDS)] + [("free-standing-region", explore_free_region), ("folding", explore_folding)]
